@@ -992,6 +992,26 @@ func (o *oracles) finish() {
 	r.NonTrivial = o.assignments > 0 && (o.maxConcurrentStreams >= 2 || len(w.k.FaultsFired) > 0)
 }
 
+// shortInv renders invocation keys compactly.
+func shortInv(keys []string) string {
+	var out []string
+	for _, k := range keys {
+		switch {
+		case strings.Contains(k, "correlatedInvocationsId"):
+			out = append(out, k[strings.Index(k, "correlatedInvocationsId")+26:len(k)-2])
+		case strings.Contains(k, "toolInvocationId"):
+			out = append(out, k[strings.Index(k, "toolInvocationId")+19:len(k)-2])
+		case strings.Contains(k, "\"value\":"):
+			out = append(out, k[strings.Index(k, "\"value\":")+9:len(k)-2])
+		case strings.Contains(k, "BackgroundLearning"):
+			out = append(out, "<bg>")
+		default:
+			out = append(out, "-")
+		}
+	}
+	return "[" + strings.Join(out, " ") + "]"
+}
+
 func short(s string) string {
 	if len(s) > 8 {
 		return s[:8]
@@ -1013,7 +1033,7 @@ func (o *oracles) annotate(prev, snap *scheduler.VerifSnapshot, pending []observ
 		pop := findOp(prev, op.Name)
 		switch {
 		case pop == nil:
-			k.Annotate("new operation %s action=%s stage=%s queue=%v task=%x ops-of-task=%d bg=%v dnc=%v", op.Name[30:], short(op.ActionDigest), op.Stage, op.Queue, op.TaskID&0xffff, op.TaskOps, op.Background, op.DoNotCache)
+			k.Annotate("new operation %s action=%s stage=%s queue=%v inv=%s prio=%d expected=%s ops-of-task=%d bg=%v dnc=%v", op.Name[30:], short(op.ActionDigest), op.Stage, op.Queue, shortInv(op.Invocation), op.Priority, op.ExpectedDuration, op.TaskOps, op.Background, op.DoNotCache)
 		case pop.Stage != op.Stage || pop.Queue != op.Queue || pop.WorkerKey != op.WorkerKey:
 			msg := ""
 			if op.Response != nil {
@@ -1055,6 +1075,18 @@ func (o *oracles) annotate(prev, snap *scheduler.VerifSnapshot, pending []observ
 	for i := range prev.Queues {
 		if findQueue(snap, prev.Queues[i].Key) == nil {
 			k.Annotate("queue %v removed", prev.Queues[i].Key)
+		}
+	}
+	for i := range snap.Invocations {
+		ni := &snap.Invocations[i]
+		var pi *scheduler.VerifInvocation
+		for j := range prev.Invocations {
+			if prev.Invocations[j].ID == ni.ID {
+				pi = &prev.Invocations[j]
+			}
+		}
+		if len(ni.QueuedChildren) > 0 && (pi == nil || fmt.Sprint(pi.QueuedChildren, pi.QueuedChildrenPriorities) != fmt.Sprint(ni.QueuedChildren, ni.QueuedChildrenPriorities)) {
+			k.Annotate("heap of queued children at %s: %s first priorities %v", shortInv(ni.Path), shortInv(ni.QueuedChildren), ni.QueuedChildrenPriorities)
 		}
 	}
 	for _, obs := range pending {
